@@ -170,18 +170,22 @@ def createCanonFirstTime (env : Env) (canonName stream : String) (streamPos : Na
     .ok ((cs, cid), { c with cid := st })) >>= fun r =>
   canonFinish canonName r.1 r.2 peerId
 
+/-- what `handle_canon_executed` reads: the resolved peer (for the tetraplet check) and the CID stores —
+never the live stream -/
+def canonRead (env : Env) (peer : Value) (cid : Cid) (c : Ctx) : ER CanonStream := do
+  let peerId ← resolveToString c peer
+  let expected : Tetraplet := { peerPk := peerId }
+  match lookup c.cid.canonResults cid with
+  | none => uncatchable (.valueForCidNotFound "canon result aggregate" cid)
+  | some agg => do
+    let t ← getTetrapletByCid c.cid agg.tetraplet
+    verifyCanon expected t
+    let values ← agg.values.mapM (getCanonValueByCid env c.cid)
+    pure (({ values := values, tetraplet := t } : CanonStream))
+
 /-- `handle_canon_executed`: the canon stream is rebuilt from the stores alone (never from the live stream) -/
 def canonExecuted (env : Env) (canonName : String) (peer : Value) (cid : Cid) : M Unit :=
-  readER (fun c => do
-    let peerId ← resolveToString c peer
-    let expected : Tetraplet := { peerPk := peerId }
-    match lookup c.cid.canonResults cid with
-    | none => uncatchable (.valueForCidNotFound "canon result aggregate" cid)
-    | some agg => do
-      let t ← getTetrapletByCid c.cid agg.tetraplet
-      verifyCanon expected t
-      let values ← agg.values.mapM (getCanonValueByCid env c.cid)
-      pure (({ values := values, tetraplet := t } : CanonStream))) >>= fun cs =>
+  readER (canonRead env peer cid) >>= fun cs =>
   canonFinish canonName cs cid cs.tetraplet.peerPk
 
 def execCanon (env : Env) (i : Instr) (peer : Value) (stream : String) (streamPos : Nat) (canonName : String) : M Unit :=
